@@ -140,7 +140,7 @@ def original_text_source(ctx, rid):
         paths = explore(f, pure=lambda c: c.declared in ("std::cmp::PartialEq::ne", "std::cmp::PartialEq::eq")
                         or c.name.endswith("ensure_real_path"),
                         is_effect=lambda c: c.name.endswith("fs::read_to_string") or c.name.endswith("and_then")
-                        or c.name.endswith("emit_formatted_file"))
+                        or c.name.endswith("emit_formatted_file"), program=p, inline="auto")
     except TooManyPaths as e:
         r.undecidable(rid, str(e))
         return
